@@ -205,15 +205,18 @@ class Recorder:
                 o.tune = tune
             rec._orig[1](self_)
 
+        def nupd(alg):      # checkpoints are labelled by the number of updates applied so far in this process
+            return sum(1 for e in rec.events if e["alg"] == alg.id and e["kind"] == "update")
+
         def opt_save(self_, checkpoint, safely=True, overwrite=False):
             rec._orig[2](self_, checkpoint, safely, overwrite)
-            snap(self_, "ckpt", self_._epoch)
-            rec.rng_at_ckpt[(self_.id, self_._epoch)] = torch.get_rng_state()
+            snap(self_, "ckpt", nupd(self_))
+            rec.rng_at_ckpt[(self_.id, nupd(self_))] = torch.get_rng_state()
 
         def mcmc_save(self_):
             rec._orig[3](self_)
-            snap(self_, "ckpt", self_._epoch)
-            rec.rng_at_ckpt[(self_.id, self_._epoch)] = torch.get_rng_state()
+            snap(self_, "ckpt", nupd(self_))
+            rec.rng_at_ckpt[(self_.id, nupd(self_))] = torch.get_rng_state()
 
         Optimizer.run, MCMC.run, Optimizer.save_full_state, MCMC.save_full_state = opt_run, mcmc_run, opt_save, mcmc_save
 
@@ -320,8 +323,6 @@ def check_config(ctx: Ctx, name, mk, opts, wd, rec: Recorder):
             for part in ("state", "params"):
                 for path in sorted(set(saved[part]) | set(restored[part])):
                     sv, rv = saved[part].get(path), restored[part].get(path)
-                    if path.endswith("state.str:iteration") or path == "state.str:iteration":
-                        continue            # judged by the counter clause below
                     if sv != rv:
                         np_ = norm_path(path)
                         measured["lossy"].add(np_)
@@ -329,7 +330,7 @@ def check_config(ctx: Ctx, name, mk, opts, wd, rec: Recorder):
                                       f"configuration {name}, checkpoint at iteration {k}: {path} was {sv} when the checkpoint was written "
                                       f"and is {rv} after restarting from it", {"config": name, "k": k, "path": path})
             # (2) resumed = uninterrupted (sequence of parameter states, by order)
-            a_after = [e["phash"] for e in A if e["alg"] == alg and e["kind"] == "update" and e["label"] > k]
+            a_after = [e["phash"] for e in A if e["alg"] == alg and e["kind"] == "update"][k:]
             b_after = [e["phash"] for e in B2 if e["alg"] == alg and e["kind"] == "update"]
             m = min(len(a_after), len(b_after))
             if a_after[:m] != b_after[:m]:
